@@ -299,7 +299,7 @@ package core
 // ---------------------------------------------------------------------------
 // Determinism (C06): map ranges whose body calls into jsight-schema-core. The mechanical check cannot see that these
 // calls commute; each line is an assumption listed in the evidence.
-//@ maporder (*JApiCore).compileUserTypeWithAllDependencies 1 AddRule registers rules under distinct names taken from a map's keys; the dependency stores them in its own map (assumed commutative)
+//@ maporder (*JApiCore).addRulesToUserType 1 AddRule registers rules under distinct names taken from a map's keys; the dependency stores them in its own map (assumed commutative)
 //@ maporder newPathVariablesSchema 1 AddType registers user types under distinct names taken from a map's keys (assumed commutative)
 
 // ---------------------------------------------------------------------------
